@@ -185,6 +185,7 @@ class Fn:
         self.extra_defs = []     # loop bodies emitted as their own definitions
         self.fname = None
         self.origin = {}         # python name -> lean expression it was bound to
+        self.tree_args = {}      # keyword arguments of cKDTree(...) / query_ball_point(...): name -> source literal
 
     # ---- helpers ----
     def bad(self, node, why=""):
@@ -470,8 +471,9 @@ class Fn:
             tr = e.func.value
             if not (self.is_self_attr(tr) and tr.attr == "_kdtree"):
                 self.bad(e, "ball query on something that is not self._kdtree")
-            if len(e.args) != 2 or set(kw) != {"p"} or U(kw["p"]) not in ("2.0", "2"):
+            if len(e.args) != 2:
                 self.bad(e, "query_ball_point arguments")
+            self.record_tree_args(e, "query_ball_point", kw)
             c, tc, bc = self.expr(e.args[0])
             r, trd, br = self.expr(e.args[1])
             if tc != "Pt" or trd != "K":
@@ -533,7 +535,8 @@ class Fn:
             if rt:
                 return f"List.flatten {P(x)}", rt, bx
             self.bad(e)
-        if f == "cKDTree" and len(e.args) == 1 and not kw:
+        if f == "cKDTree" and len(e.args) == 1:
+            self.record_tree_args(e, "cKDTree", kw)
             x, tx, bx = self.expr(e.args[0])
             if tx != "Pts":
                 self.bad(e)
@@ -555,6 +558,34 @@ class Fn:
             self.bad(e)
         # matrix products with a transposed lattice
         self.bad(e)
+
+    # keyword arguments of the neighbour search (SciPy defaults filled in): -> `<method>_tree_args`
+    TREE_KW = {"cKDTree": ("leafsize", "compact_nodes", "copy_data", "balanced_tree", "boxsize"),
+               "query_ball_point": ("p", "eps", "workers", "return_sorted", "return_length")}
+
+    def record_tree_args(self, e, which, kw):
+        import inspect
+        from scipy.spatial import cKDTree
+        sig = inspect.signature(cKDTree if which == "cKDTree" else cKDTree.query_ball_point)
+        vals = {}
+        for name in self.TREE_KW[which]:
+            if name not in sig.parameters:
+                self.bad(e, f"the installed SciPy has no keyword {name} for {which}")
+            vals[name] = repr(sig.parameters[name].default)
+        for name, v in kw.items():
+            if name not in vals:
+                self.bad(e, f"keyword {name} of {which} is not carried")
+            if isinstance(v, ast.UnaryOp) and isinstance(v.op, ast.USub) and isinstance(v.operand, ast.Constant):
+                vals[name] = "-" + U(v.operand)
+            elif isinstance(v, ast.Constant) and not isinstance(v.value, str):
+                vals[name] = U(v)
+            else:
+                self.bad(e, f"keyword {name} of {which}: only literals are carried")
+        for name, v in vals.items():
+            key = f"{which}.{name}"
+            if key in self.tree_args and self.tree_args[key] != v:
+                self.bad(e, f"two {which} calls with different {name}")
+            self.tree_args[key] = v
 
     def intexpr(self, e, names):
         if isinstance(e, ast.Name) and e.id in names:
@@ -1330,7 +1361,46 @@ def translate_method(src, cls, name, struct, params, setter=False, what="", lean
     lines = []
     fn.block(list(m.body), "  ", lines)
     head = [doc(owner, m, f, what), f"def {lean_name} {' '.join(sig)} :", f"    {fn.exit.ret_ty} :="]
-    return "\n\n".join(fn.extra_defs + ["\n".join(head + lines)])
+    return "\n\n".join(fn.extra_defs + ["\n".join(head + lines)] + tree_args_def(fn, lean_name, where))
+
+
+def _fraction(txt, where, what):
+    from fractions import Fraction
+    try:
+        q = Fraction(txt)
+    except (ValueError, TypeError):
+        raise Unsupported(f"{where}: {what}={txt}: not a number") from None
+    if q < 0:
+        raise Unsupported(f"{where}: {what}={txt}: negative")
+    return q
+
+
+def tree_args_def(fn, lean_name, where):
+    """The keyword arguments of `cKDTree(...)` and `.query_ball_point(...)` of a method, with the defaults of the
+    installed SciPy filled in (read from its signatures), as a `TreeArgs` constant."""
+    a = fn.tree_args
+    if not a:
+        return []
+    need = ("cKDTree.leafsize", "cKDTree.boxsize", "query_ball_point.p", "query_ball_point.eps", "query_ball_point.return_length")
+    miss = [k for k in need if k not in a]
+    if miss:
+        raise Unsupported(f"{where}: the neighbour search is not one cKDTree(...) with one query_ball_point(...) (missing {miss})")
+    try:
+        leafsize = int(a["cKDTree.leafsize"])
+    except ValueError:
+        raise Unsupported(f"{where}: leafsize={a['cKDTree.leafsize']}") from None
+    if leafsize < 0 or a["cKDTree.leafsize"] in ("True", "False"):
+        raise Unsupported(f"{where}: leafsize={a['cKDTree.leafsize']}")
+    if a["query_ball_point.return_length"] != "False":
+        raise Unsupported(f"{where}: return_length={a['query_ball_point.return_length']}: the query returns counts, not positions")
+    p = _fraction(a["query_ball_point.p"], where, "p")
+    eps = _fraction(a["query_ball_point.eps"], where, "eps")
+    src = ", ".join(f"{k.split('.')[1]}={a[k]}" for k in sorted(a))
+    return [f"/-- Keyword arguments of the neighbour search of `{where}` (`cKDTree(...)`, `.query_ball_point(...)`), the defaults\n"
+            f"of the installed SciPy filled in from its signatures: {src}. -/\n"
+            f"def {lean_name}_tree_args : TreeArgs :=\n"
+            f"  {{ leafsize := {leafsize}, boxsizeNone := {'true' if a['cKDTree.boxsize'] == 'None' else 'false'}, "
+            f"pNum := {p.numerator}, pDen := {p.denominator}, epsNum := {eps.numerator}, epsDen := {eps.denominator} }}"]
 
 
 def translate_getitem_periodic(src):
